@@ -9,6 +9,7 @@ import Frp.Engines.Wait
 import Frp.Engines.Plugin
 import Frp.Engines.Client
 import Frp.Engines.Codec
+import Frp.Engines.Visitor
 /-! Registry of driver engines (one line per engine). -/
 namespace Frp.Engines
 open Frp.Proto
@@ -25,5 +26,6 @@ def all : List (String × Engine) :=
   , ("client", client)
   , ("health", health)
   , ("codec", codec)
+  , ("visitor", visitor)
   ]
 end Frp.Engines
